@@ -5,6 +5,7 @@ go 1.23
 toolchain go1.23.5
 
 require (
+	a0quiet v0.0.0
 	github.com/google/go-eventlog v0.0.2-0.20241213203620-f921bdc3aeb0
 	github.com/google/go-tdx-guest v0.0.0
 	github.com/google/logger v1.1.1
@@ -21,3 +22,5 @@ require (
 )
 
 replace github.com/google/go-tdx-guest => /repo
+
+replace a0quiet => ./quiet
